@@ -58,7 +58,7 @@ func (x *Exec) resolveUses(fu *FuncUnit) []string {
 			continue
 		}
 		for _, n := range ur.Names {
-			ok := false
+			ok := n == "-"
 			for _, c := range r.Requires {
 				if c.Name == n {
 					ok = true
